@@ -290,7 +290,7 @@ impl Channel {
         r.is_ok() ==> final(self).enforcement_state == (EnforcementState { channel_closed: true, ..old(self).enforcement_state }),  //[C02.sign-holder.marks-closed]
         r.is_err() ==> final(self).enforcement_state == old(self).enforcement_state
             && final(self).persisted == old(self).persisted,                                          //[C10.sign-holder.err-frame]
-        r.is_ok() ==> final(self).persisted@ == final(self).enforcement_state,                        //[C11.sign-holder.persisted]
+        r.is_ok() ==> final(self).persisted@ == final(self).enforcement_state,                        //[C11.sign-holder.persisted] [C02.sign-holder.closed-flag-durable]
 //@end
 
 //@fn vls-core/src/channel.rs :: impl Channel :: sign_holder_commitment_tx_phase2_redundant props=C02,C10,C11
@@ -306,7 +306,7 @@ impl Channel {
         r.is_ok() ==> final(self).enforcement_state == (EnforcementState { channel_closed: true, ..old(self).enforcement_state }),   //[C02.sign-redundant.marks-closed]
         r.is_err() ==> final(self).enforcement_state == old(self).enforcement_state
             && final(self).persisted == old(self).persisted,                                          //[C10.sign-redundant.err-frame]
-        r.is_ok() ==> final(self).persisted@ == final(self).enforcement_state,                        //[C11.sign-redundant.persisted]
+        r.is_ok() ==> final(self).persisted@ == final(self).enforcement_state,                        //[C11.sign-redundant.persisted] [C02.sign-redundant.closed-flag-durable]
 //@end
 
 //@fn vls-core/src/channel.rs :: impl Channel :: sign_holder_commitment_tx_for_recovery props=C02,C10,C11
@@ -325,7 +325,7 @@ impl Channel {
         r.is_ok() ==> final(self).enforcement_state == (EnforcementState { channel_closed: true, ..old(self).enforcement_state }),   //[C02.sign-recovery.marks-closed]
         r.is_err() ==> final(self).enforcement_state == old(self).enforcement_state
             && final(self).persisted == old(self).persisted,                                          //[C10.sign-recovery.err-frame]
-        r.is_ok() ==> final(self).persisted@ == final(self).enforcement_state,                        //[C11.sign-recovery.persisted]
+        r.is_ok() ==> final(self).persisted@ == final(self).enforcement_state,                        //[C11.sign-recovery.persisted] [C02.sign-recovery.closed-flag-durable]
 //@sub /let mut tx = holder_tx\.built_transaction\(\)\.transaction\.clone\(\);/ => let mut tx = holder_tx.built_transaction().transaction.clone(); let holder_tx_keys_vx = holder_tx.keys();
 //@end
 
